@@ -41,18 +41,23 @@ def job_normalize(res, n, nb, pat):
                   [ex.dom.z(ex.load(st, R['integral'], F32)) != sum(fbefore[1:], fbefore[0])])), key='integrate-formula')
     nz = [fbefore[b] > 0 for b in range(nb)]
     st.pc += nz
-    for f in ('e_normalize', 'e_updx', 'e_integrate'): st = ex.run1(st, f, [ps])
-    account(res, ex, mod, [st])
-    fa = get_reals(ex, st, R['filling'], nb); integ = ex.dom.z(ex.load(st, R['integral'], F32))
-    def cex(m): return {'replay': 'normalize', 'n': n, 'nb': nb, 'pattern': pat, 'data': [mval(m, v) for v in D], 'filling_after': [mval(m, v) for v in fa]}
-    for b in range(nb):
-        prove(res, 'n=%d nb=%d pattern %s: after renormalisation bunch %d integrates to exactly its share %s (arbitrary non-negative data with non-zero charge)' % (n, nb, [float(x) for x in fs], b, float(fs[b])),
-              st.pc, fa[b] != fs[b], key='normalize-share', cex_fn=cex, timeout_ms=120000)
-    prove(res, 'n=%d nb=%d pattern %s: total integral after renormalisation == sum of the shares' % (n, nb, [float(x) for x in fs]), st.pc, integ != sum(fs), key='normalize-total', cex_fn=cex, timeout_ms=120000)
-    dat = get_reals(ex, st, R['data'], nb * n * n)
-    for b in range(nb):
-        if fs[b] == 0: prove(res, 'empty bucket %d: every cell is zero after renormalisation' % b, st.pc, z3.Or(*[v != 0 for v in dat[b * n * n:(b + 1) * n * n]]), key='normalize-empty')
-    witness(res, 'normalisation result depends on the data (n=%d)' % n, st.pc, z3.BoolVal(occurs(dat[0], D[0]) and occurs(dat[0], D[1])))
+    # normalize() may branch on the data (e.g. a shortcut when the charge is already right): every path is followed and must meet the same obligations
+    finals = []
+    for s_n in run_paths(ex, st, 'e_normalize', [ps]):
+        for s_x in run_paths(ex, s_n, 'e_updx', [ps]): finals += run_paths(ex, s_x, 'e_integrate', [ps])
+    account(res, ex, mod, finals)
+    for k, st in enumerate(finals):
+        ptag = '' if len(finals) == 1 else ' [path %d of %d through normalize()]' % (k + 1, len(finals))
+        fa = get_reals(ex, st, R['filling'], nb); integ = ex.dom.z(ex.load(st, R['integral'], F32))
+        def cex(m, fa=fa): return {'replay': 'normalize', 'n': n, 'nb': nb, 'pattern': pat, 'data': [mval(m, v) for v in D], 'filling_after': [mval(m, v) for v in fa]}
+        for b in range(nb):
+            prove(res, 'n=%d nb=%d pattern %s: after renormalisation bunch %d integrates to exactly its share %s (arbitrary non-negative data with non-zero charge)%s' % (n, nb, [float(x) for x in fs], b, float(fs[b]), ptag),
+                  st.pc, fa[b] != fs[b], key='normalize-share', cex_fn=cex, timeout_ms=120000)
+        prove(res, 'n=%d nb=%d pattern %s: total integral after renormalisation == sum of the shares%s' % (n, nb, [float(x) for x in fs], ptag), st.pc, integ != sum(fs), key='normalize-total', cex_fn=cex, timeout_ms=120000)
+        dat = get_reals(ex, st, R['data'], nb * n * n)
+        for b in range(nb):
+            if fs[b] == 0: prove(res, 'empty bucket %d: every cell is zero after renormalisation%s' % (b, ptag), st.pc, z3.Or(*[v != 0 for v in dat[b * n * n:(b + 1) * n * n]]), key='normalize-empty')
+    witness(res, 'normalisation result depends on the data (n=%d)' % n, finals[0].pc, z3.BoolVal(any(occurs(get_reals(ex, f_, R['data'], 1)[0], D[0]) and occurs(get_reals(ex, f_, R['data'], 1)[0], D[1]) for f_ in finals)))
 
 def job_moments(res, n, nb, pat, axis, q, p):
     """average/variance with symbolic projections and measured charges: first and second moments of that bunch's projection, independent of other bunches"""
